@@ -221,6 +221,9 @@ func (s *State) boxesOf(marker string) []string {
 
 func (s *State) createBox(name string) {
 	s.Boxes[name] = &sBox{UIDNext: 1, Subscribed: true}
+
+	// a name that exists again drops the record of its deleted subscription (repair 21fa39b)
+	delete(s.DeletedSubs, name)
 }
 
 // apply returns the state after the operation (the receiver is not changed).
@@ -368,6 +371,7 @@ func (s *State) apply(o Op) *State {
 				nn := o.Dst + strings.TrimPrefix(n, o.Box)
 				a.Boxes[nn] = a.Boxes[n]
 				delete(a.Boxes, n)
+				delete(a.DeletedSubs, nn) // as for createBox
 			}
 		}
 
